@@ -14,6 +14,35 @@
    kept apart otherwise. *)
 From V Require Import Common.Base C06.TsTokens.
 
+(* binding patterns of parameters in function types (skipTypeScriptBinding): no
+   types and no defaults inside *)
+Inductive pat : Type :=
+| PId (x : Z)                      (* x ; negative: this *)
+| PArr (holes : nat) (es : list pat)   (* [, , a, ...b] : leading holes, then elements *)
+| PRest (p : pat)                  (* ...p  (array element) *)
+| PObj (ps : list pat)             (* { a, k: p, ...r } *)
+| PShort (x : Z)                   (* a        (object member) *)
+| PProp (key : Z) (p : pat)        (* key: p   (object member; key as in object types) *)
+| PObjRest (x : Z).                (* ...r     (object member) *)
+
+Section pat_ind'.
+  Variable P : pat -> Prop.
+  Hypothesis HId : forall x, P (PId x).
+  Hypothesis HArr : forall h es, Forall P es -> P (PArr h es).
+  Hypothesis HRest : forall p, P p -> P (PRest p).
+  Hypothesis HObj : forall ps, Forall P ps -> P (PObj ps).
+  Hypothesis HShort : forall x, P (PShort x).
+  Hypothesis HProp : forall k p, P p -> P (PProp k p).
+  Hypothesis HObjRest : forall x, P (PObjRest x).
+  Fixpoint pat_ind' (p : pat) : P p :=
+    let fix go (l : list pat) : Forall P l :=
+      match l with [] => Forall_nil P | x :: r => Forall_cons x (pat_ind' x) (go r) end in
+    match p with
+    | PId x => HId x | PArr h es => HArr h es (go es) | PRest p => HRest p (pat_ind' p)
+    | PObj ps => HObj ps (go ps) | PShort x => HShort x | PProp k p => HProp k p (pat_ind' p) | PObjRest x => HObjRest x
+    end.
+End pat_ind'.
+
 Inductive ty : Type :=
 | TPrim                                   (* any number string ... *)
 | TLit (k : tk)                           (* literal types and void/null/true/false *)
@@ -33,7 +62,7 @@ Inductive ty : Type :=
 | TParen (t : ty)
 | TFn (kind : Z) (tps : list ty) (ps : list ty) (ret : ty)   (* kind 0: <tps>(ps) => ret ; 1: new <tps>(ps) => ret ; 2: abstract new ... ; tps are TTParam, ps are TParam *)
 | TTParam (mods : list Z) (x : Z) (hc hd : bool) (c d : ty)   (* const in out x extends c = d   (mods: 0 const, 1 in, 2 out) *)
-| TParam (dots : bool) (x : Z) (opt ann : bool) (t : ty)   (* ...x?: t ; x < 0 is "this"; ann = false: no annotation *)
+| TParam (dots : bool) (p : pat) (opt ann : bool) (t : ty)   (* ...p?: t ; p a binding pattern (PId x, x < 0 is "this"); ann = false: no annotation *)
 | TAsserts (x : Z) (hasis : bool) (t : ty)   (* asserts x / asserts x is t  (return position only; x < 0 is "this") *)
 | TObj (ms : list ty)                     (* { members } ; members are TMProp / TMMeth / TMIndex / TMMapped *)
 | TMProp (keys : list Z) (opt : bool) (t : ty) (sep : Z)       (* readonly key?: t ;   sep 0 ";" 1 "," 2 none (last member) *)
@@ -67,7 +96,7 @@ Section ty_ind'.
   Hypothesis HParen : forall t, P t -> P (TParen t).
   Hypothesis HFn : forall k tps ps ret, Forall P tps -> Forall P ps -> P ret -> P (TFn k tps ps ret).
   Hypothesis HTParam : forall ms x hc hd c d, P c -> P d -> P (TTParam ms x hc hd c d).
-  Hypothesis HParam : forall d x o a t, P t -> P (TParam d x o a t).
+  Hypothesis HParam : forall d p o a t, P t -> P (TParam d p o a t).
   Hypothesis HAsserts : forall x h t, P t -> P (TAsserts x h t).
   Hypothesis HObj : forall ms, Forall P ms -> P (TObj ms).
   Hypothesis HMProp : forall ks o t s, P t -> P (TMProp ks o t s).
@@ -98,7 +127,7 @@ Section ty_ind'.
     | TParen t => HParen t (ty_ind' t)
     | TFn k tps ps ret => HFn k tps ps ret (go tps) (go ps) (ty_ind' ret)
     | TTParam ms x hc hd c d => HTParam ms x hc hd c d (ty_ind' c) (ty_ind' d)
-    | TParam d x o a t => HParam d x o a t (ty_ind' t)
+    | TParam d p o a t => HParam d p o a t (ty_ind' t)
     | TAsserts x h t => HAsserts x h t (ty_ind' t)
     | TObj ms => HObj ms (go ms)
     | TMProp ks o t s => HMProp ks o t s (ty_ind' t)
@@ -177,6 +206,19 @@ Definition pm_ok (p : Z) : bool := (0 <=? p) && (p <=? 2).
 
 (* parameter lists and return positions, parametric in the well-formedness of types
    (so that they can be named outside [wfb]) *)
+(* well-formed binding positions: top = a parameter / array element / property value *)
+Fixpoint wf_pat (p : pat) : bool :=
+  match p with
+  | PId x => bind_ok x
+  | PArr _ es => forallb (fun e => match e with PRest q => (match q with PId _ | PArr _ _ | PObj _ => wf_pat q | _ => false end)
+                                              | PId _ | PArr _ _ | PObj _ => wf_pat e | _ => false end) es
+  | PObj ps => forallb (fun m => match m with PShort x | PObjRest x => normal x
+                                            | PProp _ q => (match q with PId _ | PArr _ _ | PObj _ => wf_pat q | _ => false end)
+                                            | _ => false end) ps
+  | _ => false
+  end.
+Definition top_pat (p : pat) : bool := match p with PId _ | PArr _ _ | PObj _ => wf_pat p | _ => false end.
+
 Section WfWith.
 Variable w : ty -> bool.
 Definition wf_ret_with (ret : ty) : bool :=
@@ -184,7 +226,7 @@ Definition wf_ret_with (ret : ty) : bool :=
 Fixpoint wf_params_with (ps : list ty) : bool :=
   match ps with
   | [] => true
-  | TParam _ x _ ann t :: r => bind_ok x && (if ann then w t else true) && wf_params_with r
+  | TParam _ p _ ann t :: r => top_pat p && (if ann then w t else true) && wf_params_with r
   | _ => false
   end.
 Fixpoint wf_tparams_with (tps : list ty) : bool :=
@@ -280,6 +322,17 @@ Definition pm_toks (p : Z) : toks := if p =? 1 then [tk1 KPlus] else if p =? 2 t
 Definition sep_toks (s : Z) : toks := if s =? 0 then [tk1 KSemi] else if s =? 1 then [tk1 KComma] else [].
 Definition optq (o : bool) : toks := if o then [tk1 KQuestion] else [].
 
+Fixpoint Rp (p : pat) (post : toks) : toks :=
+  match p with
+  | PId x => tk1 (bind_tk x) :: post
+  | PArr h es => tk1 KLBrack :: repeat (tk1 KComma) h ++ join [tk1 KComma] (map Rp es) (tk1 KRBrack :: post)
+  | PRest q => tk1 KDotDotDot :: Rp q post
+  | PObj ps => tk1 KLBrace :: join [tk1 KComma] (map Rp ps) (tk1 KRBrace :: post)
+  | PShort x => tk1 (KIdent x) :: post
+  | PProp k q => tk1 (key_tk k) :: tk1 KColon :: Rp q post
+  | PObjRest x => tk1 KDotDotDot :: tk1 (KIdent x) :: post
+  end.
+
 Fixpoint R (t : ty) (post : toks) : toks :=
   let targs := fun (args : list ty) (post : toks) =>
     match args with
@@ -324,8 +377,8 @@ Fixpoint R (t : ty) (post : toks) : toks :=
       tk1 (KIdent x) :: (if hc then tk1 KExtends :: R c (if hd then tk1 KEq :: R d post else post)
                          else if hd then tk1 KEq :: R d post else post)
   | TParam d x o ann t =>
-      (if d then [tk1 KDotDotDot] else []) ++ tk1 (bind_tk x) :: optq o ++
-      (if ann then tk1 KColon :: R t post else post)
+      (if d then [tk1 KDotDotDot] else []) ++ Rp x (optq o ++
+      (if ann then tk1 KColon :: R t post else post))
   | TAsserts x h t =>
       tk1 (KIdent c_asserts) :: tk1 (bind_tk x) :: (if h then tk1 (KIdent c_is) :: R t post else post)
   | TObj ms => tk1 KLBrace :: join [] (map R ms) (tk1 KRBrace :: post)
